@@ -381,10 +381,28 @@ fn ref_lzma2_inner(data: &[u8], strict: bool, d: &mut RefDec) -> Result<usize, L
 // ------------------------------------------------------------------ .xz writer
 
 fn enc_int(plan: &XzPlan, field: &str, v: u64) -> Vec<u8> {
+    if let Some((f, extra)) = &plan.ov_nonminimal {
+        if f == field {
+            return vli_nonminimal(v, *extra);
+        }
+    }
     match &plan.ov_overlong {
         Some((f, tenth)) if f == field => vli_overlong(v, *tenth),
         _ => vli(v),
     }
+}
+
+/// `v` spelt with `extra` more groups than needed (all zero), at most nine bytes in
+/// all: the same value, not the shortest form.
+pub fn vli_nonminimal(v: u64, extra: u8) -> Vec<u8> {
+    let mut out = vli(v);
+    let extra = (extra as usize).min(9 - out.len());
+    for k in 0..extra {
+        let n = out.len();
+        out[n - 1] |= 0x80;
+        out.push(if k + 1 == extra { 0x00 } else { 0x80 });
+    }
+    out
 }
 
 pub fn vli(mut v: u64) -> Vec<u8> {
@@ -475,6 +493,9 @@ pub struct BlockPlan {
     pub ov_usize: Option<u64>,
     /// (index into header padding, value)
     pub ov_hpad: Option<(usize, u8)>,
+    /// the "size of properties" field of the last filter says this instead of the
+    /// number of property bytes that follow
+    pub ov_props_size: Option<u64>,
     /// several header padding bytes at once: (offset into the padding, bytes)
     pub ov_hpads: Option<(usize, Vec<u8>)>,
     pub ov_hcrc: Option<u32>,
@@ -495,6 +516,9 @@ pub struct XzPlan {
     /// `vli_overlong`); fields: "index.count", "index.rec<i>.unpadded",
     /// "index.rec<i>.uncompressed", "block<i>.csize", "block<i>.usize"
     pub ov_overlong: Option<(String, u8)>,
+    /// (field name, extra zero groups): that integer is written longer than needed
+    /// (nine bytes at most) - same value, not the shortest form
+    pub ov_nonminimal: Option<(String, u8)>,
     /// per record overrides: (record index, unpadded, uncompressed)
     pub ov_records: Vec<(usize, Option<u64>, Option<u64>)>,
     /// drop / add index records: the index lists this many records
@@ -569,11 +593,15 @@ pub fn build_xz(plan: &XzPlan) -> XzBuilt {
             rel.push(("usize".into(), 1 + body.len(), v.len()));
             body.extend_from_slice(&v);
         }
-        for (id, props) in filters {
+        for (fi, (id, props)) in filters.iter().enumerate() {
             let v = vli(*id);
             rel.push(("filter_id".into(), 1 + body.len(), v.len()));
             body.extend_from_slice(&v);
-            body.extend_from_slice(&vli(props.len() as u64));
+            let declared = match b.ov_props_size {
+                Some(x) if fi + 1 == filters.len() => x,
+                _ => props.len() as u64,
+            };
+            body.extend_from_slice(&vli(declared));
             rel.push(("filter_props".into(), 1 + body.len(), props.len()));
             body.extend_from_slice(props);
         }
